@@ -125,6 +125,8 @@ pub fn unique_text(rng: &mut Rng, serial: u64, pos: Pos) -> String {
         1 => "  two  spaces ",
         2 => " é€ 日本 𝄞",
         3 => "\tTab\nNewline",
+        // Latin-1 only: stored as 8-bit ("compressed") characters in BIFF8
+        4 => " caf\u{e9} Z\u{fc}rich \u{b1}\u{b0}",
         _ => "",
     };
     format!("s{}@{}{}", serial, a1(pos), extra)
